@@ -184,6 +184,14 @@ def mk_state_level(kind, rep, tname, cname, shape):
 
 
 def obligations(tier):
+    obs = _obligations(tier)
+    for o in obs:  # a sample of the symbolically decided assertions is re-decided by the cvc5 binary
+        if o.name.startswith(('pairs-',)):
+            o.cross_check = 6 if tier == 'quick' else 60
+    return obs
+
+
+def _obligations(tier):
     q = tier == 'quick'
     obs = []
     for kind in ('state', 'observation'):
